@@ -157,16 +157,15 @@ Definition faulty_match (c : case) (s : state) : bool :=
                     | _ => false
                     end) (c_fetches c) &&
   match c_wait c with
-  | 0 => false                           (* a possible fault whose Wait returns nil: see below *)
+  | 0 => false                           (* see below *)
   | 1 => c_stopped c
   | 2 => existsb (fails c) (c_reads c)
   | _ => false
   end.
 
-(* Wait may return nil in a faulty scenario only when the fault did not materialise: Stop is what makes
-   [faulty] true in that case cannot be (Stop always sets an error first or finds one), so the failing
-   key is listed only by Fetch calls that were... no: without Stop every listed key is read before Wait
-   returns, so nil is impossible.  Hence the [0 => false] above. *)
+(* [0 => false] above: in a scenario where a fault is possible Wait cannot return nil.  Stop sets the error
+   (or finds one) before Wait is called; without Stop every listed key is read before the workers exit
+   (they drain the closed channel), so a listed failing key is read and its error recorded. *)
 
 Definition check_case (c : case) : bool :=
   negb (c_hang c) && ids_distinct c &&
